@@ -37,7 +37,8 @@ type c17Route struct {
 	Dst    string `json:"dst,omitempty"` // "" = default route; else a more specific route that must NOT count as default
 	Dev    string `json:"dev"`
 	Via    string `json:"via,omitempty"`
-	Metric int    `json:"metric"`
+	Metric int64  `json:"metric"`
+	Src    string `json:"src,omitempty"` // preferred-source hint of the route (as dhcpcd / systemd-networkd install them)
 }
 
 type c17Case struct {
@@ -218,7 +219,7 @@ func c17Check(c c17Case) *kit.Verdict {
 		choices = []c17Choice{{c.Iface, firstV4(byName[c.Iface])}}
 	default:
 		rule = "default-route"
-		best := -1
+		best := int64(-1)
 		for _, r := range c.Routes {
 			if r.Dst == "" && (best < 0 || r.Metric < best) {
 				best = r.Metric
@@ -253,6 +254,10 @@ func c17Check(c c17Case) *kit.Verdict {
 		if e.srcIP == "" {
 			errorAdmissible = true
 			continue // no IPv4 source address: not usable
+		}
+		if c.SrcMAC != "" && len(c.SrcMAC) != 17 {
+			errorAdmissible = true
+			continue // an EUI-64 / InfiniBand hardware address cannot be the source of an Ethernet frame: not usable
 		}
 		if e.srcMAC == "" {
 			if c.Scan == "arp" {
@@ -375,6 +380,7 @@ var c17Nets = []string{"10.1.0", "10.1.1", "10.2.0", "172.16.5", "192.168.50", "
 func c17Gen(t *rapid.T) c17Case {
 	var c c17Case
 	nveth := rapid.IntRange(1, 3).Draw(t, "nveth")
+	numericNames := rapid.IntRange(0, 5).Draw(t, "numeric-names") == 0
 	host := 2
 	type net4 struct {
 		iface string
@@ -383,6 +389,10 @@ func c17Gen(t *rapid.T) c17Case {
 	var nets []net4
 	for i := 0; i < nveth+1; i++ {
 		kind, name := "veth", fmt.Sprintf("e%d", i)
+		if numericNames {
+			// a name made of digits only, chosen to collide with the interface index of a neighbour (lo is 1, pairs take two indexes each)
+			name = fmt.Sprint([]int{4, 2, 3}[i%3])
+		}
 		if i == nveth {
 			if !rapid.Bool().Draw(t, "with-tun") {
 				break
@@ -424,7 +434,7 @@ func c17Gen(t *rapid.T) c17Case {
 	usedKey := map[string]bool{}
 	for k := 0; k < nr; k++ {
 		ifc := c.Ifaces[kit.Uniform(t, "rdev", len(c.Ifaces))]
-		r := c17Route{Dev: ifc.Name, Metric: rapid.SampledFrom([]int{0, 10, 100, 100, 600}).Draw(t, "metric")}
+		r := c17Route{Dev: ifc.Name, Metric: rapid.SampledFrom([]int64{0, 10, 100, 100, 600, 100, 10, 2147483646, 2147483647, 4000000000, 4294967295}).Draw(t, "metric")}
 		if usedKey[fmt.Sprint(r.Dev, r.Metric)] {
 			continue
 		}
@@ -442,13 +452,22 @@ func c17Gen(t *rapid.T) c17Case {
 				}
 			}
 		}
+		// a preferred-source hint (one of the device's own IPv4 addresses): the route is a default route all the same
+		if rapid.IntRange(0, 3).Draw(t, "src-hint") == 0 {
+			for _, n := range nets {
+				if n.iface == ifc.Name {
+					r.Src = gram.U32String(n.p.Addr)
+					break
+				}
+			}
+		}
 		c.Routes = append(c.Routes, r)
 	}
 	// more specific routes (half-default routes of VPN clients, a static /8) - they are not default routes
 	for k := 0; k < rapid.SampledFrom([]int{0, 0, 1, 2}).Draw(t, "nspecific"); k++ {
 		ifc := c.Ifaces[kit.Uniform(t, "sdev", len(c.Ifaces))]
 		c.Routes = append(c.Routes, c17Route{Dst: rapid.SampledFrom([]string{"0.0.0.0/1", "128.0.0.0/1", "0.0.0.0/8", "203.0.0.0/8"}).Draw(t, "sdst"), Dev: ifc.Name,
-			Metric: rapid.SampledFrom([]int{0, 5, 100}).Draw(t, "smetric")})
+			Metric: rapid.SampledFrom([]int64{0, 5, 100}).Draw(t, "smetric")})
 	}
 	c.Scan = rapid.SampledFrom([]string{"arp", "icmp", "tcp", "udp"}).Draw(t, "scan")
 	// target: attached to some interface's network, or not attached at all
@@ -471,7 +490,7 @@ func c17Gen(t *rapid.T) c17Case {
 		c.SrcIP = "10.99.0.9"
 	}
 	if rapid.IntRange(0, 3).Draw(t, "srcmac-flag") == 0 {
-		c.SrcMAC = "02:99:00:00:00:09"
+		c.SrcMAC = rapid.SampledFrom([]string{"02:99:00:00:00:09", "02:99:00:00:00:09", "02:99:00:00:00:09", "02:99:00:00:00:00:00:09"}).Draw(t, "srcmac")
 	}
 	// --srcmac on a MAC-less interface is left open by the statement: do not generate it when a tun device could be chosen
 	c.Live = c.Scan == "arp" && rapid.IntRange(0, 3).Draw(t, "live") == 0
